@@ -57,13 +57,13 @@ def run (j : Json) : Except String Json := do
   if !(wfSteps steps) then
     return Json.mkObj [("skip", true), ("why", "path has non-access steps")]
   let agree := (modelObs == implObs) &&
-    (match implTouched with | some t => t == out.touched | none => true)
+    (match implTouched with | some t => isSubseq t (touchedAddrs out.touched) | none => true)
   let holds := checkC01 env heap steps target implObs implTouched
-  let modelHolds := checkC01 env heap steps target modelObs (some out.touched)
+  let modelHolds := checkC01 env heap steps target modelObs (some (touchedAddrs out.touched))
   return Json.mkObj [("agree", agree), ("holds", holds), ("model_holds", modelHolds),
     ("wf", WF env),
     ("model", obsToJson modelObs),
-    ("model_touched", toJson out.touched),
+    ("model_touched", toJson (touchedAddrs out.touched)),
     ("branch", match modelObs with
       | .ok (.ref _) => "ok-container" | .ok _ => "ok-scalar"
       | .pae _ c .. => s!"pae-{c}" | .other c => s!"other-{c}")]
